@@ -13,6 +13,14 @@ VARIABLE st
 LeafTypes == << <<1, 0>>, <<6, 0>>, <<0, 0>>, <<5, 0>>, <<7, 2>>, <<2, 0>>, <<3, 0>>, <<4, 0>> >>
 NameOf(i) == <<110>> \o [j \in 1..(10 - i) |-> 120]      \* "n" followed by 10-i times "x": every later name is a proper prefix of every earlier one (node counts <= 9)
 
+\* logical-type annotations, cycling over the leaves (C17: the logical-type accessor returns what the file states)
+LtCat == << [k |-> "none"], [k |-> "string"], [k |-> "integer", bits |-> 8, signed |-> FALSE], [k |-> "decimal", scale |-> 2, precision |-> 9],
+            [k |-> "timestamp", utc |-> TRUE, unit |-> "us"], [k |-> "date"], [k |-> "time", utc |-> FALSE, unit |-> "ns"],
+            [k |-> "integer", bits |-> 64, signed |-> TRUE], [k |-> "uuid"], [k |-> "json"], [k |-> "timestamp", utc |-> FALSE, unit |-> "ms"],
+            [k |-> "enum"], [k |-> "bson"], [k |-> "float16"], [k |-> "decimal", scale |-> 0, precision |-> 38] >>
+LtOf(i, salt) == LtCat[((i * 7 + salt) % Len(LtCat)) + 1]
+WithLt(e, lt) == [name |-> e.name, hasType |-> e.hasType, type |-> e.type, tlen |-> e.tlen, hasRep |-> e.hasRep, rep |-> e.rep,
+                  nchild |-> e.nchild, conv |-> e.conv, lt |-> lt]
 Shapes(n) == {ks \in [1..n -> 0..(n - 1)] : ValidForest([i \in 1..n |-> [rep |-> 0, kids |-> ks[i]]], n - FoldLeft(LAMBDA a, i : a + ks[i], 0, [i \in 1..n |-> i]))
                                               /\ n - FoldLeft(LAMBDA a, i : a + ks[i], 0, [i \in 1..n |-> i]) >= 1}
 Init == st = [lvl |-> 0]
@@ -26,8 +34,10 @@ Elements(s) ==
         leafNo(i) == Len(SelectSeq([j \in 1..i |-> j], LAMBDA j : nodes[j].kids = 0))
     IN <<Root(Roots(nodes))>> \o
        [i \in 1..s.n |-> IF nodes[i].kids = 0
-                          THEN LET lt == LeafTypes[((leafNo(i) - 1) % Len(LeafTypes)) + 1] IN Leaf(NameOf(i), lt[1], nodes[i].rep, lt[2])
-                          ELSE Group(NameOf(i), nodes[i].rep, nodes[i].kids)]
+                          THEN LET lt == LeafTypes[((leafNo(i) - 1) % Len(LeafTypes)) + 1]
+                               IN WithLt(Leaf(NameOf(i), lt[1], nodes[i].rep, lt[2]), LtOf(i, s.n + FoldLeft(LAMBDA a, j : a + s.reps[j], 0, [j \in 1..s.n |-> j])))
+                          ELSE WithLt(Group(NameOf(i), nodes[i].rep, nodes[i].kids),
+                                      IF nodes[i].rep = 2 THEN [k |-> "list"] ELSE IF i % 3 = 0 THEN [k |-> "map"] ELSE [k |-> "none"])]
 FileOf(s) ==
     LET nodes == Nodes(s)
         lv == Levels(nodes)
@@ -49,7 +59,8 @@ Emit == st.lvl = 2 =>
                  <<"spec self-check failed: DFS walk disagrees with the path definition", st>>)
        /\ PrintT(ToJson([n |-> st.n, kids |-> st.ks, reps |-> st.reps, bytes |-> bs,
                          elements |-> [i \in 1..Len(es) |-> [name |-> es[i].name, isLeaf |-> es[i].hasType, type |-> es[i].type,
-                                                             tlen |-> es[i].tlen, rep |-> es[i].rep, nchild |-> es[i].nchild]],
+                                                             tlen |-> es[i].tlen, rep |-> es[i].rep, nchild |-> es[i].nchild,
+                                                             lt |-> IF "lt" \in DOMAIN es[i] THEN es[i].lt ELSE [k |-> "none"]]],
                          nodeLevels |-> NodeLevels(nodes),
                          leaves |-> [k \in 1..Len(lv) |-> [elem |-> lv[k].node, name |-> NameOf(lv[k].node), maxDef |-> lv[k].maxDef, maxRep |-> lv[k].maxRep]]]))
 =============================================================================
